@@ -151,3 +151,31 @@ Proof. exact nonvac_clear. Qed.
 (* an exhaustion result exists (cap 128, sequentially): the hypothesis of C08_no_false_exhaustion is satisfiable *)
 Example C08_nonvacuous_exhaustion : exists s rs, seq_gets 128 (init_state 2) = Some (s, rs) /\ nth 127 rs (0, true) = (0, false).
 Proof. eexists. eexists. split; vm_compute; reflexivity. Qed.
+
+(* ---- the model's bit arithmetic is the code: generated-model equivalence (tools/go2coq, Gen/Code.v,
+   C08/GenEquiv.v) -----------------------------------------------------------------------------------
+   GC.f is the Gallina definition that tools/go2coq generates from the Go source of f
+   (internal/streams/streams.go) on every run.  GetStream and Clear are concurrent code over atomics and stay
+   tied to the model by the scheduled correspondence run; the pure helpers they call are tied by proof. *)
+From GocqlV Require Import Gen.Code.
+From GocqlV Require C08.GenEquiv.   (* not imported: its helper lemmas stay qualified *)
+
+(* streamOffset: every int (Go's % truncates; the subtraction is uint64 arithmetic) *)
+Theorem C08_generated_streamOffset_is_model : forall s, GC.streamOffset s = stream_offset s.
+Proof. exact C08.GenEquiv.gen_streamOffset_eq. Qed.
+Print Assumptions C08_generated_streamOffset_is_model.
+
+Theorem C08_generated_bucketOffset_is_model : forall s, GC.bucketOffset s = bucket_offset s.
+Proof. exact C08.GenEquiv.gen_bucketOffset_eq. Qed.
+Print Assumptions C08_generated_bucketOffset_is_model.
+
+(* streamFromBucket is the id the model's GetStream returns (pos * bb + j): no int overflow for any word index *)
+Theorem C08_generated_streamFromBucket_is_model : forall pos j, 0 <= pos < 2 ^ 50 -> 0 <= j < 64 ->
+  GC.streamFromBucket pos j = pos * bb + j.
+Proof. exact C08.GenEquiv.gen_streamFromBucket_eq. Qed.
+Print Assumptions C08_generated_streamFromBucket_is_model.
+
+(* isSet on the word that holds id s is the model's in-use bit of s *)
+Theorem C08_generated_isSet_is_model : forall m s, 0 <= s -> GC.isSet (word m (s / bb)) s = bit m s.
+Proof. exact C08.GenEquiv.gen_isSet_eq. Qed.
+Print Assumptions C08_generated_isSet_is_model.
